@@ -5,11 +5,24 @@ import Model.Retrieve
 namespace Drv.Ret
 open Wire Chain Retrieve
 
+/-- how a scripted outcome was written in the op line -/
+inductive Tok | plain | text | textGet (c : Nat)
+  deriving Inhabited, DecidableEq
+
 structure St where
   proposer : Bytes := []
   n : RNode := {}
   v : DAView := {}
   ok : Bool := false
+  /-- per DA height: is the scripted outcome a TEXT-ONLY variant (what a proxied DA returns: an error whose message
+  contains the sentinel's text but does not wrap it)?  The code classifies by SUBSTRING: `RetrieveWithHelpers` maps a
+  GetIDs error containing "blob: not found" / "given height is from the future" to NotFound / HeightFromFuture, so
+  `notfoundtext` is `.notFound` and `futuretext` is `.future`; a Get error is always StatusError, but
+  `processNextDAHeaderAndData` looks for "given height is from the future" in the resulting error text, so
+  `errgettext:c` on a chunk that exists ends the round like `.future` (after the gets up to chunk `c`), and is
+  `.errGet c` (never fires) otherwise — `prep`.  The tokens keep the names for the fetch log; consumed in lockstep
+  with the script. -/
+  flags : List (Nat × List Tok) := []
   deriving Inhabited
 
 def oracleOf (o : Op) : Oracle :=
@@ -25,18 +38,43 @@ def showEvents (evs : List Event) : String :=
     | .dat sd da => some s!"d:{(sd.data.metadata.map (·.height)).getD 0}:{short sd.data.daCommitment}@{da}" | _ => none
   if (hs ++ ds).isEmpty then "-" else String.intercalate "," (hs ++ ds)
 
-def parseFetch (t : String) : Option Fetch :=
+def parseFetch (t : String) : Option (Fetch × Tok) :=
   match t.splitOn ":" with
-  | ["ok"] => some .ok
-  | ["future"] => some .future
-  | ["notfound"] => some .notFound
-  | ["errids"] => some .errIds
-  | ["errget"] => some (.errGet 0)
-  | ["errget", c] => c.toNat?.map .errGet
+  | ["ok"] => some (.ok, .plain)
+  | ["future"] => some (.future, .plain)
+  | ["notfound"] => some (.notFound, .plain)
+  | ["errids"] => some (.errIds, .plain)
+  | ["errget"] => some (.errGet 0, .plain)
+  | ["errget", c] => c.toNat?.map fun c => (.errGet c, .plain)
+  | ["notfoundtext"] => some (.notFound, .text)
+  | ["futuretext"] => some (.future, .text)
+  | ["errgettext"] => some (.errGet 0, .textGet 0)
+  | ["errgettext", c] => c.toNat?.map fun c => (.errGet c, .textGet c)
   | _ => none
 
-def showFetch : Fetch → String
-  | .ok => "ok" | .future => "future" | .notFound => "notfound" | .errIds => "errids" | .errGet c => s!"errget:{c}"
+def showFetch (tok : Tok) : Fetch → String
+  | .ok => "ok" | .errIds => "errids"
+  | .future => match tok with | .text => "futuretext" | .textGet c => s!"errgettext:{c}" | .plain => "future"
+  | .notFound => if tok = .text then "notfoundtext" else "notfound"
+  | .errGet c => match tok with | .textGet _ => s!"errgettext:{c}" | _ => s!"errget:{c}"
+
+def flagsAt (fl : List (Nat × List Tok)) (h : Nat) : List Tok := ((fl.find? (·.1 = h)).map (·.2)).getD []
+def setFlags (fl : List (Nat × List Tok)) (h : Nat) (l : List Tok) : List (Nat × List Tok) :=
+  (h, l) :: fl.filter (·.1 ≠ h)
+/-- drop the tokens of the attempts a scan consumed -/
+def consumeFlags (fl : List (Nat × List Tok)) : List (Nat × Nat × Bool) → List (Nat × List Tok)
+  | [] => fl
+  | (h, k, _) :: rest => consumeFlags (setFlags fl h ((flagsAt fl h).drop k)) rest
+
+/-- a text-only "from the future" error on a Get of a chunk that exists is recognised by its text in
+`processNextDAHeaderAndData`: the round ends as for `.future` -/
+def prepOne (nblobs : Nat) : Fetch → Tok → Fetch
+  | .errGet _, .textGet c => if c * 100 < nblobs then .future else .errGet c
+  | o, _ => o
+
+def prep (v : DAView) (fl : List (Nat × List Tok)) : DAView :=
+  { v with scripts := v.scripts.map fun (h, l) =>
+      (h, List.zipWith (prepOne (v.blobsAt h).length) l (flagsAt fl h ++ List.replicate l.length .plain)) }
 
 def getsLog (nblobs : Nat) (upto : Option Nat) : List String :=
   let nch := (nblobs + 99) / 100
@@ -44,25 +82,28 @@ def getsLog (nblobs : Nat) (upto : Option Nat) : List String :=
   (List.range k).map fun i => s!"get:{min 100 (nblobs - i * 100)}@{i * 100}"
 
 /-- fetch-log lines of the attempts `processNext` makes at one height -/
-def attemptLog (h nblobs top : Nat) : Nat → List Fetch → List String
-  | 0, _ => []
-  | fuel+1, outs =>
+def attemptLog (h nblobs top : Nat) : Nat → List Fetch → List Tok → List String
+  | 0, _, _ => []
+  | fuel+1, outs, fl =>
     let o := outs.headD .ok
     let o' := if o = .ok && h ≥ top then Fetch.future else o
-    let line := s!"ids:{h}:{showFetch o'}"
+    let line := s!"ids:{h}:{showFetch (fl.headD .plain) o'}"
     match o' with
     | .ok => line :: getsLog nblobs none
-    | .notFound | .future => [line]
-    | .errIds => line :: attemptLog h nblobs top fuel outs.tail
+    | .notFound => [line]
+    | .future => match fl.headD .plain with
+      | .textGet c => line :: getsLog nblobs (some c)
+      | _ => [line]
+    | .errIds => line :: attemptLog h nblobs top fuel outs.tail fl.tail
     | .errGet c =>
-      if c * 100 < nblobs then (line :: getsLog nblobs (some c)) ++ attemptLog h nblobs top fuel outs.tail
+      if c * 100 < nblobs then (line :: getsLog nblobs (some c)) ++ attemptLog h nblobs top fuel outs.tail fl.tail
       else line :: getsLog nblobs none
 
 /-- fetch log of one scan, recomputed from what the DA view held before it -/
-def scanLog (v : DAView) : List (Nat × Nat × Bool) → List String
+def scanLog (v : DAView) (fl : List (Nat × List Tok)) : List (Nat × Nat × Bool) → List String
   | [] => []
   | (h, _, _) :: rest =>
-    attemptLog h (v.blobsAt h).length v.top dAFetcherRetries (v.scriptAt h) ++ scanLog v rest
+    attemptLog h (v.blobsAt h).length v.top dAFetcherRetries (v.scriptAt h) (flagsAt fl h) ++ scanLog v fl rest
 
 def showMarks (m : List (Bytes × Nat)) : String := Drv.Sub.showMarks m
 
@@ -80,7 +121,8 @@ def step (s : St) (line : String) : St × String :=
     let toks := if o.str "outcomes" = "" || o.str "outcomes" = "-" then [] else (o.str "outcomes").splitOn ","
     match toks.mapM parseFetch with
     | none => (s, "bad-op")
-    | some l => (if l.isEmpty then s else { s with v := s.v.setScript (o.nat "da") l }, "ok")
+    | some l => (if l.isEmpty then s else
+        { s with v := s.v.setScript (o.nat "da") (l.map (·.1)), flags := setFlags s.flags (o.nat "da") (l.map (·.2)) }, "ok")
   | "blob" =>
     let b := o.bytes "blob"
     let da := o.nat "da"
@@ -136,14 +178,15 @@ def step (s : St) (line : String) : St × String :=
   | "flood" =>
     let da := o.nat "da"
     let entry := (da, o.bytes "blob", oracleOf o)
-    let v1 := { s.v with placed := s.v.placed ++ List.replicate (o.nat "n") entry, top := max s.v.top (da + 1) }
-    let (n', v', evs, _) := scan s.proposer (v1.top + 4 - s.n.daHeight) s.n v1 [] []
-    ({ s with n := n', v := v' }, s!"flood cursor={n'.daHeight} nev={evs.length}")
+    let v1 := prep { s.v with placed := s.v.placed ++ List.replicate (o.nat "n") entry, top := max s.v.top (da + 1) } s.flags
+    let (n', v', evs, tr) := scan s.proposer (v1.top + 4 - s.n.daHeight) s.n v1 [] []
+    ({ s with n := n', v := v', flags := consumeFlags s.flags tr }, s!"flood cursor={n'.daHeight} nev={evs.length}")
   | "tick" =>
-    let (n', v', evs, tr) := scan s.proposer (s.v.top + 4 - s.n.daHeight) s.n s.v [] []
-    let log := scanLog s.v tr
+    let v0 := prep s.v s.flags
+    let (n', v', evs, tr) := scan s.proposer (v0.top + 4 - s.n.daHeight) s.n v0 [] []
+    let log := scanLog v0 s.flags tr
     let fl := if log.isEmpty then "-" else String.intercalate "," log
-    ({ s with n := n', v := v' }, s!"tick cursor={n'.daHeight} fetch={fl} events={showEvents evs} hm={showMarks n'.hMarks} dm={showMarks n'.dMarks}")
+    ({ s with n := n', v := v', flags := consumeFlags s.flags tr }, s!"tick cursor={n'.daHeight} fetch={fl} events={showEvents evs} hm={showMarks n'.hMarks} dm={showMarks n'.dMarks}")
   | _ => (s, "bad-op")
 
 end Drv.Ret
